@@ -426,6 +426,36 @@ def poly_same_object(tier, seed):
     return _finish(r)
 
 
+def a_rs2_bit_allocation(tier, seed):
+    """Run-time validation of the assumed contract A-rs2: the executable model pyvc.rsmodel.py_optimized_bit_allocation_64
+    against the compiled function on random inputs"""
+    import puan_rspy as pr
+    import sys
+    sys.path.insert(0, __file__.rsplit("/rt/", 1)[0])
+    from pyvc.rsmodel import py_optimized_bit_allocation_64 as model
+    r = _result("rt.a_rs2_bit_allocation", "random non-zero integer sequences (length 1..9, values -4..4 incl. runs of equal values and "
+                "sign changes; some with values up to 2**20): model output == compiled output; non-trivial = distinct "
+                "(length, number of sign changes, number of equal neighbours)")
+    rng = random.Random(seed + 1777)
+    n = 600 if tier == "quick" else 6000
+    for _ in range(n):
+        k = rng.randint(1, 9)
+        pal = [-4, -3, -2, -1, 1, 2, 3, 4] if rng.random() < 0.8 else [-(2 ** 20), -7, 7, 2 ** 20, 12345]
+        xs = []
+        for _ in range(k):
+            xs.append(xs[-1] if xs and rng.random() < 0.35 else rng.choice(pal))
+        try:
+            got = list(pr.py_optimized_bit_allocation_64(list(xs)))
+        except BaseException as e:
+            got = "raised " + type(e).__name__
+        want = [int(x) for x in model(list(xs))]
+        r["evaluations"] += 1
+        r["_seen"].add((k, sum(1 for a, b in zip(xs, xs[1:]) if (a < 0) != (b < 0)), sum(1 for a, b in zip(xs, xs[1:]) if a == b)))
+        if got != want and max(want) < 2 ** 62:
+            _viol(r, "a_rs2.model-differs-from-extension", {"input": xs}, got=str(got)[:200], model=want)
+    return _finish(r)
+
+
 def c13_compress(tier, seed):
     """C13: ndint_compress methods"""
     import numpy as np
